@@ -25,7 +25,7 @@ ANCHORS = ["runlengtharray.py::RunLength2dArray.from_array", "runlengtharray.py:
 OPS = ["decode", "meta", "rows", "elem", "col_int", "col_slice", "red_row", "red_col", "ravel", "concat", "npfunc", "unary", "scalar", "colvec", "intervals"]
 FLOOR_TAGS = ["op:" + o for o in OPS] + ["variant:2d", "variant:ragged", "variant:ragged_from_matrix", "rows:int", "rows:slice", "rows:list", "rows:mask",
                                          "cs:pos", "cs:neg", "side:L", "side:R", "red:argmax", "red:mean", "col:sum", "col:mean", "col:col_counts", "col:any", "j:neg",
-                                         "kind:b", "kind:i", "kind:u", "kind:f", "order:F", "order:T", "source:lazyrows", "source:lazychain"]
+                                         "kind:b", "kind:i", "kind:u", "kind:f", "order:F", "order:T", "source:lazyrows", "source:lazychain", "via:intervals", "via:plus1"]
 FLOOR_MONITORS = ["c17:compare", "inv:rla"]
 N_RANDOM = {"quick": 20000, "thorough": 300000}
 
@@ -69,6 +69,14 @@ def build(case):
         if order == "T":
             return np.ascontiguousarray(m.T).T
         return m
+    if v == "2d" and case.get("via") == "intervals":
+        # the same indicator matrix built from intervals: its last run may be longer than one cell
+        starts = np.array([int(np.flatnonzero(r)[0]) if r.any() else 0 for r in rows], dtype=np.int64)
+        ends = np.array([int(np.flatnonzero(r)[-1]) + 1 if r.any() else len(r) for r in rows], dtype=np.int64)
+        val = dt.type(next((x for r in rows for x in r.tolist() if x), 1))
+        return lib.RunLength2dArray.from_intervals(starts, ends, len(rows[0]), val), rows
+    if v == "2d" and case.get("via") == "plus1":
+        return lib.RunLength2dArray.from_array(mat() - dt.type(1)) + dt.type(1), rows
     if v == "2d":
         return lib.RunLength2dArray.from_array(mat()), rows
     if v == "ragged":
@@ -113,7 +121,7 @@ def run(case):
 
     variant = case["variant"]
     dt = np.dtype(case["dtype"])
-    tags += ["variant:" + variant, "kind:" + dt.kind, "order:" + case.get("order", "C"), "source:" + case.get("source", "fresh")]
+    tags += ["variant:" + variant, "via:" + case.get("via", "from_array"), "kind:" + dt.kind, "order:" + case.get("order", "C"), "source:" + case.get("source", "fresh")]
     c = attempt(build, case)
     pyrows = case["rows"]
     if not c.ok:
@@ -306,6 +314,18 @@ def rows_of(pyrows, rs):
     return [pyrows[i] for i in rs]
 
 
+def interval_rows(rng, dtype):
+    """an indicator matrix: one interval [s, e) per row filled with one value, zero elsewhere (e may reach the row end)"""
+    L = rng.randint(1, 9)
+    val = 1 if dtype == "bool" else rng.choice([1, 3, 7])
+    rows = []
+    for _ in range(rng.randint(1, 5)):
+        s_ = rng.randint(0, L - 1)
+        e_ = rng.choice([L, L, rng.randint(s_ + 1, L)])
+        rows.append([val if s_ <= j < e_ else 0 for j in range(L)])
+    return rows
+
+
 def gen_case(rng, tier, op=None, variant=None, dtype=None):
     op = op or rng.choice(OPS)
     dtype = dtype or rng.choice(gen.DT_ALL)
@@ -320,6 +340,12 @@ def gen_case(rng, tier, op=None, variant=None, dtype=None):
         pyrows = gen_rows(rng, dtype, variant != "ragged", tier)
         n = len(pyrows)
         c = {"op": op, "variant": variant, "dtype": dtype, "rows": pyrows}
+        if variant == "2d" and np.dtype(dtype).kind in "iub" and rng.random() < 0.3:
+            c["rows"] = pyrows = interval_rows(rng, dtype)
+            c["via"] = "intervals"
+            n = len(pyrows)
+        elif variant == "2d" and np.dtype(dtype).kind in "iuf" and dtype not in ("uint8", "uint16", "uint32", "uint64") and rng.random() < 0.15:
+            c["via"] = "plus1"
         if variant != "ragged":
             c["order"] = rng.choice(["C", "C", "F", "T"])
         elif rng.random() < 0.3:
@@ -404,6 +430,11 @@ def directed():
         for variant in ("2d", "ragged"):
             yield {"op": "red_col", "variant": variant, "dtype": dtype, "rows": [[big, 1, 1, 3], [2, 2, 7, 7], [3, 0, 0, big]], "name": "sum"}
             yield {"op": "npfunc", "variant": "ragged", "dtype": dtype, "rows": [[big, 1], [2, 2, 7], [0, 3, big]], "name": "sum", "axis": 0}
+    for rows in ([[0, 0, 3, 3, 3], [3, 3, 3, 3, 3], [0, 3, 0, 0, 0]], [[1, 1], [0, 1]], [[0, 0, 0, 7]]):
+        for op_, extra in (("red_row", {"name": "sum"}), ("red_row", {"name": "any"}), ("red_row", {"name": "all"}), ("red_col", {"name": "sum"}), ("red_col", {"name": "any"}),
+                           ("decode", {}), ("rows", {"rs": slice(None, None, -1)}), ("elem", {"i": 0, "j": -1}), ("scalar", {"uf": "add", "side": "R", "scalar": 2})):
+            yield dict({"op": op_, "variant": "2d", "dtype": "int64", "rows": rows, "via": "intervals"}, **extra)
+            yield dict({"op": op_, "variant": "2d", "dtype": "int64", "rows": rows, "via": "plus1"}, **extra)
     for rows in ([[True, True, False], [False, False, True]], [[False] * 4, [True] * 4]):
         yield {"op": "red_col", "variant": "2d", "dtype": "bool", "rows": rows, "name": "sum"}
         yield {"op": "red_col", "variant": "2d", "dtype": "bool", "rows": rows, "name": "any"}
